@@ -68,6 +68,10 @@ func diffStates(ws *core.Workspace, rnd *rand.Rand, nBroken int) []State {
 
 // buildState builds the env of a state from a fresh recipe instance.
 func buildState(rc Recipe, st State) (*core.Workspace, *core.Env, int) {
+	return buildStateOpt(rc, st, true)
+}
+
+func buildStateOpt(rc Recipe, st State, collect bool) (*core.Workspace, *core.Env, int) {
 	ws, err := rc.Make()
 	if err != nil {
 		return nil, nil, -1
@@ -82,7 +86,7 @@ func buildState(rc Recipe, st State) (*core.Workspace, *core.Env, int) {
 	}
 	text, editAt := st.Mut.Apply(orig)
 	spec.Files[st.File] = text
-	return ws, ws.Build(true), editAt
+	return ws, ws.Build(collect), editAt
 }
 
 // queryList builds the list of queries for a state: all path and file level
@@ -555,10 +559,38 @@ func errorQueries(st State) []core.Query {
 
 func (p c04) runState(rc Recipe, st State, cursors int, bseed int64, rep *runner.Reporter) {
 	rnd := rand.New(rand.NewSource(bseed))
-	ws, env, editAt := buildState(rc, st)
+	ws, env, editAt := buildStateOpt(rc, st, false)
 	if env == nil {
 		return
 	}
+	// The collectors are queries too: snapshot before anything has touched the
+	// inputs, run them (results are installed by the harness afterwards, as a
+	// language server does), snapshot again.
+	prepareC04(env)
+	for _, cq := range []core.QKind{core.QCollectTargets, core.QCollectOrigins} {
+		before := dump.Hash(snapshot(env), snapOpts)
+		for _, path := range ws.Order {
+			env.Run(core.Query{Kind: cq, Path: path})
+		}
+		rep.Eval(int64(len(ws.Order)))
+		if dump.Hash(snapshot(env), snapOpts) != before {
+			_, env2, _ := buildStateOpt(rc, st, false)
+			prepareC04(env2)
+			prev := dump.String(snapshot(env2), snapOpts)
+			for _, path := range ws.Order {
+				q := core.Query{Kind: cq, Path: path}
+				env2.Run(q)
+				cur := dump.String(snapshot(env2), snapOpts)
+				if cur != prev {
+					rep.Violation(&runner.Witness{Sig: fmt.Sprintf("MUTATION by %s of %s", q.Kind, mutatedWhat(prev, cur)), What: fmt.Sprintf("%s modified the caller-supplied inputs (first query on fresh inputs)", q.Kind),
+						Unit:  mustJSON(diffUnit{Recipe: rc, Path: path, File: st.File, Mut: st.Mut, Kind: q.Kind.String()}),
+						Files: filesOf(ws), Query: q.String(), Detail: dump.FirstDiff(prev, cur)})
+					prev = cur
+				}
+			}
+		}
+	}
+	env.Collect()
 	prepareC04(env)
 	qs := queryList(env, st, rnd, cursors, editAt)
 	qs = append(qs, errorQueries(st)...)
@@ -669,7 +701,8 @@ func (p c04) Replay(w *runner.Witness, rep *runner.Reporter) error {
 		return err
 	}
 	st := State{u.Path, u.File, u.Mut}
-	ws, env, _ := buildState(u.Recipe, st)
+	collected := u.Kind != core.QCollectTargets.String() && u.Kind != core.QCollectOrigins.String()
+	ws, env, _ := buildStateOpt(u.Recipe, st, collected)
 	if env == nil {
 		return fmt.Errorf("cannot rebuild")
 	}
